@@ -50,6 +50,19 @@ pub fn check_file(ctx: &Ctx, f: &XzFile, label: &str) {
     if !(v.is_ok() && out == want && consumed == bytes.len()) {
         let case = Case::Dec { fmt: Fmt::Xz, opts: Opts::default(), input: Hex(bytes), rd: Rd::default(), sk: Sk::default() };
         ctx.violation(&case, &format!("{}: Ok with the concatenation of the blocks {} ({} bytes)", label, brief_bytes(&want), want.len()), &obs_of(v, out, consumed), None);
+        return;
+    }
+    // a well-formed file decodes whatever way the source hands its bytes over (files up to 64 KiB)
+    if bytes.len() <= 65536 {
+        for rd in [Rd { period: 1, ..Rd::default() }, Rd { period: 5, ..Rd::default() }, Rd { bufreader: 6, ..Rd::default() }, Rd { bufreader: 19, period: 7, ..Rd::default() }] {
+            let case = Case::Dec { fmt: Fmt::Xz, opts: Opts::default(), input: Hex(bytes.clone()), rd: rd.clone(), sk: Sk::default() };
+            let o = crate::cases::run_case(&case);
+            ctx.traces.fetch_add(1, Ordering::Relaxed);
+            if !(o.v.is_ok() && o.out.0 == want) {
+                ctx.violation(&case, &format!("{} read through {:?}: Ok with the concatenation of the blocks ({} bytes)", label, rd, want.len()), &o, None);
+                return;
+            }
+        }
     }
 }
 
